@@ -13,6 +13,7 @@ import (
 
 	"github.com/vektah/gqlparser/v2/ast"
 	"github.com/vektah/gqlparser/v2/formatter"
+	"github.com/vektah/gqlparser/v2/gqlerror"
 	"github.com/vektah/gqlparser/v2/parser"
 
 	"github.com/99designs/gqlgen/graphql"
@@ -39,11 +40,14 @@ type Config struct {
 	Family bool `json:"family"`
 	// HeavyQuick: the family configs on which the long-text families run in the quick tier.
 	HeavyQuick bool `json:"heavy_families_in_quick"`
+	// Neighbours: further OperationParameterMutator extensions (accept everything) around APQ.
+	Neighbours bool `json:"other_parameter_mutators"`
 }
 
 var configs = []Config{
 	{Name: "own-map", ApqKind: "own"},
 	{Name: "mapcache", ApqKind: "mapcache", Deep: true, Family: true, HeavyQuick: true},
+	{Name: "mapcache+mutators", ApqKind: "mapcache", Neighbours: true},
 	{Name: "lru1", ApqKind: "lru", ApqCap: 1, Deep: true, Family: true},
 	{Name: "lru2", ApqKind: "lru", ApqCap: 2, Deep: true},
 	{Name: "lru3", ApqKind: "lru", ApqCap: 3},
@@ -249,8 +253,25 @@ func (w *worker) newServer(cfg Config) *server {
 			show:   func(d *ast.QueryDocument) string { return fmt.Sprintf("%p", d) }}
 		s.srv.SetQueryCache(s.qc)
 	}
+	if cfg.Neighbours {
+		s.srv.Use(passMutator{"before"})
+	}
 	s.srv.Use(extension.AutomaticPersistedQuery{Cache: s.apq})
+	if cfg.Neighbours {
+		s.srv.Use(passMutator{"after"})
+	}
 	return s
+}
+
+// passMutator is an application extension that looks at the request parameters and accepts every
+// request. Installed before and after APQ (config field Neighbours): a rejection by APQ must stay
+// a rejection whatever else is installed.
+type passMutator struct{ name string }
+
+func (p passMutator) ExtensionName() string                          { return "pass-" + p.name }
+func (p passMutator) Validate(schema graphql.ExecutableSchema) error { return nil }
+func (p passMutator) MutateOperationParameters(ctx context.Context, raw *graphql.RawParams) *gqlerror.Error {
+	return nil
 }
 
 func (s *server) stateKey() string {
